@@ -8,7 +8,7 @@ META = dict(
     assumptions=['output position of the i-th enumerated multi-index is i (C01 units ndindex_at.uf / compute_offset.uf + lemmas/MixedRadix.lean offset_indices_id) -- assumed by name (C10_POS_ENUM)',
                  'the output array satisfies its invariant (element count == product of the shape; C20) -- assumed as data_.size_ == GN when the shapes match',
                  'bounded containers: rank <= 4, element count <= 6 (capacities of the instantiated types; the proof text is macro-expanded over them)'],
-    not_covered=['view-specific element semantics beyond the bounded transpose unit', 'eval() returning a freshly allocated array (apply_resize path)', 'column-major result layout', 'array::fn(args) front ends', 'the view-specific element semantics (C03/C04/C05 index functions)'],
+    not_covered=['view-specific element semantics beyond the bounded transpose unit', 'eval() returning a freshly allocated array (apply_resize path)', 'column-major result layout beyond: the layout functor state (imported C20 ndc.* units, unbounded) and one concrete bounded evaluation', 'array::fn(args) front ends', 'the view-specific element semantics (C03/C04/C05 index functions)'],
 )
 HARNESS = '''  view_t vobj; struct none_t cobj;
   a_self.view = &vobj; a_self.context = &cobj;'''
@@ -19,9 +19,23 @@ UNITS = [
     Unit('transpose_view_at.bounded', 'c10', 'verif_transpose_at', mode='bp', plain=True, unwind=8, unwind_loops={'.': 8}, timeout=1500, object_bits=12,
          bounded='rank <= 3, extents 1..6, element count <= 6 (all loops unwound)',
          clause='(view-specific side) the lazy transpose view yields at every index the element NumPy yields, through the real decorator/indexing/ndarray glue'),
+    Unit('eval_into_fixed_rank.bounded', 'c10k', 'verif_eval_into_fixed_rank', mode='bp', plain=True, unwind=8, unwind_loops={'.': 8}, timeout=1500, object_bits=12,
+         bounded='one concrete geometry (2x3 -> 3x2), symbolic elements, all loops unwound 8 times',
+         waive=[r'arithmetic overflow on (signed to unsigned|unsigned to signed) type conversion'],
+         clause='a supplied output of the right shape is filled also when its shape type is of another kind (fixed rank) than the view shape'),
+    Unit('eval_into_colmajor.bounded', 'c10c', 'verif_eval_into_colmajor', mode='bp', plain=True, unwind=8, unwind_loops={'.': 8}, timeout=1500, object_bits=12,
+         bounded='one concrete geometry (2x3 -> column-major 3x2), symbolic elements, all loops unwound 8 times',
+         waive=[r'arithmetic overflow on (signed to unsigned|unsigned to signed) type conversion'],
+         clause='column-major result layout: every element of the supplied output equals the view element at that index'),
+    Unit('eval_flip_reshape.bounded', 'c10k', 'verif_eval_flip_reshape', mode='bp', plain=True, unwind=8, unwind_loops={'.': 8}, timeout=1500, object_bits=12,
+         bounded='one concrete composition flip(reshape(a[6],(3,2)),-1), symbolic elements, all loops unwound 8 times',
+         waive=[r'arithmetic overflow on (signed to unsigned|unsigned to signed) type conversion'],
+         clause='a view of a (rank-changing, run-time rank) view evaluated once equals the two-step result'),
     Unit('evaluator_loop.abstract', 'c10', 'nmtools::array::evaluator_t::operator()[wndarray_t]', mode='bp', harness=HARNESS, unwind=12, timeout=1500, object_bits=12,
          replace=['nmtools::shape[rdecorator_t]', 'nmtools::utils::isequal[rstatic_vector_ul_4_rstatic_vector_ul_4]', 'nmtools::index::ndindex[rstatic_vector_ul_4]',
                   'nmtools::index::ndindex_t::size', 'nmtools::index::ndindex_t::operator[]',
                   'nmtools::apply_at[nmtools_apply_at__rdecorator_t]', 'nmtools::array::base_ndarray_t::offset'],
          clause='evaluating a view into a supplied output of the right shape makes every output element equal the view element at that index; a wrong-shaped output is left untouched'),
 ]
+UNITS += import_units('C20', names=['ndc.product', 'ndc.compute_strides', 'ndc.reverse', 'ndc.mk', 'ndc.default', 'ndc.resize'],
+                      clause='column-major result layout: the offset functor of a resized result holds the products of the leading extents (every position)')
